@@ -957,7 +957,56 @@ pub fn run(ctx: &mut Ctx) {
     part_b(ctx);
     part_c(ctx);
     part_d(ctx);
+    unusable_parameters(ctx);
     ctx.rep.notes.push(
         "calculate_t is f64 code: its equality with tSpec(q = |F|) is established on the grid (model) and by exact big-integer evaluation of the bound at t and t-1 (harness), not by a theorem".into(),
     );
+}
+
+/// "Unusable parameter combinations are reported as errors": a Ligero rate whose FFT domain does not exist in
+/// the field (`rho_inv` above the field's two-adicity — the Jubjub scalar field has two-adicity 1, BLS12-381's
+/// has 32) must make `setup` / `trim` return an error, not keys (and not abort).
+fn unusable_parameters(ctx: &mut Ctx) {
+    use crate::generic::FieldToBytesColHasher;
+    use ark_poly_commit::linear_codes::LinearCodePCS;
+    type J = ark_ed_on_bls12_381::Fr;
+    type ColJ = FieldToBytesColHasher<J, blake2::Blake2s256>;
+    type UniJ = LinearCodePCS<UnivariateLigero<J, MTConfig, ark_poly::univariate::DensePolynomial<J>, ColJ>, J, ark_poly::univariate::DensePolynomial<J>, MTConfig, ColJ>;
+    type MlJ = LinearCodePCS<MultilinearLigero<J, MTConfig, ark_poly::DenseMultilinearExtension<J>, ColJ>, J, ark_poly::DenseMultilinearExtension<J>, MTConfig, ColJ>;
+    let mut verdict = |ctx: &mut Ctx, id: String, what: &str, r: Result<Result<(), String>, String>| {
+        if !ctx.selected(&id) {
+            return;
+        }
+        match &r {
+            Ok(Err(_)) => {}
+            Ok(Ok(())) => ctx.rep.expect_fail(&id, "lincode/unusable-parameters-answered",
+                &format!("{}: keys were handed out for a rate whose FFT domain does not exist in the field", what),
+                format!("# property C13: unusable parameter combinations are reported as errors\n# case: {}\n# {}\n", id, what)),
+            Err(e) => ctx.rep.expect_fail(&id, "lincode/unusable-parameters-aborted",
+                &format!("{}: aborted instead of reporting an error: {}", what, e.chars().take(80).collect::<String>()),
+                format!("# property C13: unusable parameter combinations are reported as errors\n# case: {}\n# {}\n", id, what)),
+        }
+        ctx.rep.case(&format!("unusable parameters {} -> {:?}", what, r.as_ref().map(|x| x.as_ref().map_err(|e| e.chars().take(40).collect::<String>()))), Some(id.clone()));
+    };
+    let mut rng = rng_for(ctx.seed, "C13/unusable", 0);
+    for d in [1usize, 4, 16] {
+        let r = guarded(|| UniJ::setup(d, None, &mut rng).map(|_| ()).map_err(|e| format!("{:?}", e)));
+        verdict(ctx, format!("C13/unusable/jubjub/uni-setup/{}", d), &format!("UnivariateLigero::setup({}) over the Jubjub scalar field (two-adicity 1, default rho_inv 4)", d), r);
+    }
+    for nv in [2usize, 4] {
+        let r = guarded(|| MlJ::setup(1, Some(nv), &mut rng).map(|_| ()).map_err(|e| format!("{:?}", e)));
+        verdict(ctx, format!("C13/unusable/jubjub/ml-setup/{}", nv), &format!("MultilinearLigero::setup({} variables) over the Jubjub scalar field (two-adicity 1, default rho_inv 2)", nv), r);
+    }
+    for rho in [2usize, 4, 8] {
+        let pp = LigeroPCParams::<J, MTConfig, ColJ>::new(128, rho, true, (), (), ());
+        let r = guarded(|| UniJ::trim(&pp, 1, 0, None).map(|_| ()).map_err(|e| format!("{:?}", e)));
+        verdict(ctx, format!("C13/unusable/jubjub/uni-trim/{}", rho), &format!("UnivariateLigero::trim with rho_inv {} over the Jubjub scalar field", rho), r);
+        let r = guarded(|| MlJ::trim(&pp, 1, 0, None).map(|_| ()).map_err(|e| format!("{:?}", e)));
+        verdict(ctx, format!("C13/unusable/jubjub/ml-trim/{}", rho), &format!("MultilinearLigero::trim with rho_inv {} over the Jubjub scalar field", rho), r);
+    }
+    for rho in [33usize, 40, 64] {
+        let pp = LigeroPCParams::<Fr, MTConfig, ColH>::new(128, rho, true, (), (), ());
+        let r = guarded(|| UniLigeroPC::trim(&pp, 1, 0, None).map(|_| ()).map_err(|e| format!("{:?}", e)));
+        verdict(ctx, format!("C13/unusable/bls/uni-trim/{}", rho), &format!("UnivariateLigero::trim with rho_inv {} over BLS12-381 Fr (two-adicity 32)", rho), r);
+    }
 }
